@@ -15,7 +15,7 @@ from authlib.oauth2.rfc6750 import BearerTokenGenerator, BearerTokenValidator
 from authlib.oauth2.rfc7009 import RevocationEndpoint
 from authlib.oauth2.rfc7662 import IntrospectionEndpoint
 from authlib.oauth2.rfc7636 import CodeChallenge
-from authlib.oauth2.rfc8628 import DeviceAuthorizationEndpoint, DeviceCodeGrant, DeviceCredentialMixin
+from authlib.oauth2.rfc8628 import DeviceAuthorizationEndpoint, DeviceCodeGrant, DeviceCredentialMixin, DeviceCredentialDict
 from authlib.oauth2 import ResourceProtector as _RP
 from authlib.oauth2.rfc6749.resource_protector import ResourceProtector
 from authlib.oidc.core import grants as oidc_grants
@@ -119,21 +119,14 @@ class FakeSession:
             raise
 
 
-class DeviceCred(DeviceCredentialMixin):
-    def __init__(self, **kw):
-        self.__dict__.update(kw)
-
-    def get_client_id(self):
-        return self.client_id
-
-    def get_scope(self):
-        return self.scope
-
-    def get_user_code(self):
-        return self.user_code
-
-    def is_expired(self):
-        return self.expires_at < CLOCK()
+class DeviceCred(DeviceCredentialDict):
+    """the repo's own dict-backed device credential (rfc8628.models.DeviceCredentialDict: its expiry rule is the code under
+    verification), holding everything DeviceAuthorizationEndpoint hands to save_device_credential"""
+    device_code = property(lambda self: self["device_code"])
+    user_code = property(lambda self: self["user_code"])
+    client_id = property(lambda self: self["client_id"])
+    scope = property(lambda self: self.get("scope"))
+    expires_at = property(lambda self: self["expires_at"])
 
 
 class Store:
@@ -396,8 +389,7 @@ class DevEndpoint(DeviceAuthorizationEndpoint):
     def save_device_credential(self, client_id, scope, data):
         st = self.server.store
         st.cb("save_device_credential")
-        st.devices.append(DeviceCred(client_id=client_id, scope=scope, device_code=data["device_code"],
-                                     user_code=data["user_code"], expires_at=CLOCK() + data["expires_in"]))
+        st.devices.append(DeviceCred(data, client_id=client_id, scope=scope, expires_at=CLOCK() + data["expires_in"]))
 
 
 def make_endpoints(store):
